@@ -72,7 +72,7 @@ def strategy_(draw, tier):
     c["pi_frac"] = draw(st.floats(0.3, 1.0))
     c["pi_on_node"] = draw(st.booleans())
     c["rows"] = "descending" if draw(st.integers(0, 5)) == 0 else "ascending"
-    c["container"] = draw(st.sampled_from(["dict", "dataframe"]))
+    c["container"] = draw(st.sampled_from(["dict", "dataframe", "dataframe-offset-index"]))
     return c
 
 
